@@ -51,6 +51,42 @@ class C05(Prop):
             p = rng.choice([0.02, 0.1, 0.3])
             d = [rng.choice([13, 10, 0]) if rng.random() < p else rng.randrange(256) for _ in range(n)]
             cases.append(Case([1, which] + d, {"which": which, "d": d, "src": "random"}))
+        # search directed by the source (vlib/dictionary.py): byte values the current source mentions and the pinned one does not
+        # join the alphabet (strings up to 9 bytes: a whole machine word plus one), and block sizes it mentions decide where
+        # terminators are placed in long inputs (every alignment around each multiple of the block)
+        from . import fam_api, dictionary
+        nov = list(fam_api.NOVEL)
+        if nov:
+            newbytes = [b for b in dictionary.exact() + nov if b < 256 and b not in (13, 10, 0, 97)][:2]
+            for nb in newbytes:
+                al = [97, 13, 10, nb]
+                for which in (0, 1, 2):
+                    for n in range(3, 9):
+                        for t in itertools.product(al, repeat=n):
+                            if nb in t:
+                                cases.append(Case([1, which] + list(t), {"which": which, "d": list(t), "src": "dictionary"}))
+            # bytes one bit / one step away from a terminator, placed next to terminators (word-at-a-time scans go wrong there)
+            near = sorted(set(x for t in (13, 10, 0) for x in (t - 2, t - 1, t + 1, t + 2, t ^ 1, t ^ 2, t ^ 4, t ^ 8, t ^ 0x80, t | 0x20) if 0 <= x < 256 and x not in (13, 10, 0)))
+            for which in (0, 1, 2):
+                for nb in near:
+                    for k in range(0, 18):
+                        for pat in ([13, nb, 10], [nb, 10], [13, nb], [nb, 13, 10], [13, 10, nb], [nb, 0], [0, nb], [nb]):
+                            for j in (0, 1):
+                                d = [97] * k + pat + [98] * j
+                                cases.append(Case([1, which] + d, {"which": which, "d": d, "src": "dictionary"}))
+            blocks = sorted(set([8, 16, 64] + [v for v in nov if 4 <= v <= 4096]))[:8]
+            for which in (0, 1, 2):
+                term = {0: [[10], [13, 10]], 1: [[13, 10]], 2: [[0]]}[which]
+                for blk in blocks:
+                    for mult in (1, 2, 3):
+                        for off in range(-9, 10):
+                            p = blk * mult + off
+                            if p < 0 or p > 9000:
+                                continue
+                            for tm in term:
+                                for fill in (97, 13):
+                                    d = [fill] * p + tm + [98] * 5
+                                    cases.append(Case([1, which] + d, {"which": which, "d": d, "src": "dictionary"}))
         self.exhaustive_maxlen = maxlen
         return cases
 
